@@ -1049,6 +1049,30 @@ class _FSrc:
         return TOP
 
 
+class _Hash:
+    """A hashlib object evaluated for real on concrete bytes."""
+
+    def __init__(self, h):
+        self.h = h
+
+    def pqv_getattr(self, name):
+        h = self.h
+
+        class _C:
+            def pqv_call(_s, *a, **k):
+                if name == 'update':
+                    if not all(isinstance(x, (bytes, bytearray)) for x in a):
+                        raise AnalysisError('R15.6', 'read_files', 'hash updated with an untracked value')
+                    h.update(*a)
+                    return None
+                if name in ('digest', 'hexdigest'):
+                    return getattr(h, name)()
+                if name == 'copy':
+                    return _Hash(h.copy())
+                return TOP
+        return _C()
+
+
 def _r156_read_files(ctx: Ctx, m, ami, aci, fn, site) -> None:
     """read_files is interpreted on four file locations (two members of a zip archive, one of them gzipped; a plain and
     a gzipped file): every location yields the entries read_entry makes of the JSON decoded from THAT file, once, in
@@ -1085,7 +1109,26 @@ def _r156_read_files(ctx: Ctx, m, ami, aci, fn, site) -> None:
             if isinstance(func, Closure) and getattr(func.fn, 'name', '') == 'read_entry':
                 b = dict(zip(('data', 'results_file'), args))
                 b.update(kwargs)
-                return [Tagged('entry', b.get('data'), b.get('results_file'))]
+                d_ = b.get('data')
+                # one concrete record per file, with the SAME content in every file (distinct runs of one parameter set
+                # with identical outcomes, e.g. short runs far below threshold): what is kept may not depend on content
+                return [{'code': {'name': 'C', 'parameters': {'L_x': 3}}, 'error_model': {'name': 'E'},
+                         'decoder': {'name': 'D'}, 'error_rate': 0.1, 'method': {'name': 'direct'},
+                         'effective_error': np.zeros((2, 2), dtype=np.uint8), 'codespace': np.ones(2, dtype=bool),
+                         'success': np.ones(2, dtype=bool), 'n_trials': 2, 'results_file': b.get('results_file'),
+                         '_src': d_.args[0] if isinstance(d_, Tagged) and d_.tag == 'data' else d_}]
+            if isinstance(func, Ext) and func.name == 'json.dumps' and args and 'TOP' not in repr(args[0]):
+                import json as _json
+                try:
+                    return _json.dumps(args[0], **{k_: v_ for k_, v_ in kwargs.items() if k_ in ('sort_keys', 'indent')})
+                except (TypeError, ValueError):
+                    return TOP
+            if isinstance(func, Ext) and func.name.startswith('hashlib.') and all(isinstance(a_, bytes) for a_ in args):
+                import hashlib as _hl
+                return _Hash(getattr(_hl, func.name.split('.')[-1])(*args))
+            if isinstance(func, Ext) and func.name.startswith('numpy.'):
+                r_ = call_numpy(func, args, kwargs)
+                return TOP if r_ is NOT_HANDLED else r_
             return NOT_HANDLED
     locations = [('Z.zip', 'a.json.gz'), ('Z.zip', 'b.json'), 'c.json', 'd.json.gz']
     it = Interp(m, H())
@@ -1113,9 +1156,7 @@ def _r156_read_files(ctx: Ctx, m, ami, aci, fn, site) -> None:
         return src
     want = [(('gz', ('zip', 'Z.zip', 'a.json.gz')), 'ABS/Z.zip/a.json.gz'), (('zip', 'Z.zip', 'b.json'), 'ABS/Z.zip/b.json'),
             (('file', 'c.json'), 'ABS/c.json'), (('gz', ('file', 'd.json.gz')), 'ABS/d.json.gz')]
-    have = [(norm(e.args[0].args[0]) if isinstance(e, Tagged) and e.tag == 'entry' and isinstance(e.args[0], Tagged)
-             and e.args[0].tag == 'data' else repr(e), e.args[1] if isinstance(e, Tagged) and e.tag == 'entry' else None)
-            for e in got]
+    have = [(norm(e.get('_src')), e.get('results_file')) if isinstance(e, dict) else (repr(e), None) for e in got]
     ok = have == want
     ctx.ob('R15.6', site, 'read_files: every file, whatever its container, goes through read_entry exactly once', ok,
            f'entries come from {have!r}; expected one per location, in order, decoded from that file and labelled with its '
